@@ -53,9 +53,9 @@ type histOut struct {
 }
 
 // runHistory executes one call history in a fresh worker process.
-func runHistory(worker string, ops []string) (*histOut, error) {
+func runHistory(worker string, ops []string, extraEnv ...string) (*histOut, error) {
 	cmd := exec.Command(worker, "-prop", "hist", strings.Join(ops, ","))
-	cmd.Env = append(goEnv(), "VERIF_DIR="+verifDir, "GOMAXPROCS=2", "VERIF_FP_FROM=-2", "VERIF_FP_EXCLUDE="+volatileList())
+	cmd.Env = append(append(goEnv(), extraEnv...), "VERIF_DIR="+verifDir, "GOMAXPROCS=2", "VERIF_FP_FROM=-1", "VERIF_FP_EXCLUDE="+volatileList())
 	out, err := cmd.Output()
 	if err != nil {
 		return nil, fmt.Errorf("history %v: %v", ops, err)
@@ -243,24 +243,25 @@ func (e *histExplorer) exploreOnce() error {
 		for i, h := range outs {
 			e.transitions++
 			hist := batch[i]
-			// replay determinism: the prefix must lead to the recorded state
-			if len(hist) > 1 {
-				prefixFP := h.Steps[len(hist)-2].FP
-				if _, ok := e.states[prefixFP]; !ok {
-					if n, err := markVolatile(e.worker, hist[:len(hist)-1]); err != nil {
-						return err
-					} else if n > 0 {
-						return errRestart
-					}
-					return fmt.Errorf("replaying history %v reached an unknown state (non-deterministic state)", hist[:len(hist)-1])
-				}
-			}
 			e.checkRun(hist, h)
 			fp := h.Steps[len(hist)-1].FP
 			if _, seen := e.states[fp]; !seen {
 				if len(e.states) >= e.maxStates {
 					e.res.Exhaustive = false
 					continue
+				}
+				// determinism: the history that discovered a new state must reach it again
+				again, err := runHistory(e.worker, hist)
+				if err != nil {
+					return err
+				}
+				if again.Steps[len(hist)-1].FP != fp {
+					if n, err := markVolatile(e.worker, hist); err != nil {
+						return err
+					} else if n > 0 {
+						return errRestart
+					}
+					return fmt.Errorf("replaying history %v reached a different state (non-deterministic state)", hist)
 				}
 				e.states[fp] = hist
 				e.lazyOf[fp] = h.Lazy
@@ -291,9 +292,9 @@ func newHistResult(prop, tier string) *Result {
 
 func runC13(tier string) int {
 	t0 := time.Now()
-	w := buildWorker()
+	w := buildWorkerH()
 	r := newHistResult("C13", tier)
-	kinds := []string{"CV", "IV", "CB", "CF", "CW", "CZ", "CX", "GE", "GX", "GB", "NW", "NF", "NB", "SD", "SP", "SM", "ST"}
+	kinds := []string{"CV", "IV", "CB", "CF", "CG", "CW", "CZ", "CX", "GE", "GX", "GR", "GS", "GB", "NW", "NF", "NB", "SD", "SW", "SP", "SM", "SA", "SB", "ST"}
 	langs := []int{2, 5, 8, 9, 10}
 	maxStates := 64
 	if tier == "thorough" {
@@ -351,11 +352,32 @@ func runC13(tier string) int {
 		e.transitions += int64(len(matrix[i]))
 		e.checkRun(matrix[i], h)
 	}
+	// long histories: behaviour that changes only after many calls (counters, caches that fill up)
+	// is beyond a breadth-first search that stops at a state cap: every operation repeated 70 times,
+	// and the whole alphabet cycled through twice, each in one fresh process
+	var long [][]string
+	for _, op := range e.ops {
+		h := make([]string, 70)
+		for i := range h {
+			h[i] = op
+		}
+		long = append(long, h)
+	}
+	long = append(long, append(append([]string(nil), e.ops...), e.ops...))
+	lo, err := parallelHist(w, long)
+	if err != nil {
+		die("%v", err)
+	}
+	for i, h := range lo {
+		e.transitions += int64(len(long[i]))
+		e.checkRun(long[i], h)
+	}
+	r.Extra["long_histories"] = len(long)
 	r.States = int64(len(e.states))
 	r.Transitions = e.transitions
 	r.Evaluations = e.transitions
 	r.Distinct = int64(len(e.distinctOut))
-	r.Rule = "explicit-state BFS over call histories: alphabet = 17 operation kinds (valid/invalid validations, the same string under every language, encodings, the same entropy under every language, NewMnemonic over a scripted source swapped in and out, failing source, seeds with shared mnemonic or shared passphrase, String) x languages (quick: English, Japanese, Czech, Portuguese + unsupported 10; thorough: all ten + unsupported 10 and -1); every transition is executed in a fresh OS process by replaying the shortest history to the source state and then the operation; state = SHA-256 of a canonical dump of every package-level variable of bip39 and internal/wordlist; search runs to a fixpoint; plus the complete ordered first-use matrix (10x10 ordered language pairs, each followed by valid/invalid validations in all ten languages). Oracle per executed call: outcome (value, error class and text, panic) equals the outcome of the same call in a fresh process; caller buffers and earlier results unchanged at the end of the history. distinct_nontrivial = distinct (operation, outcome) pairs observed"
+	r.Rule = "explicit-state BFS over call histories: alphabet = 23 operation kinds (valid/invalid validations, the same string under every language, encodings, the same entropy under every language, NewMnemonic over a scripted source swapped in and out, failing source, seeds with shared mnemonic or shared passphrase, a seed whose returned slice the caller then wipes, one caller-owned entropy buffer refilled in place, String); error values returned earlier must keep their text x languages (quick: English, Japanese, Czech, Portuguese + unsupported 10; thorough: all ten + unsupported 10 and -1); every transition is executed in a fresh OS process by replaying the shortest history to the source state and then the operation; state = SHA-256 of a canonical dump of every package-level variable of bip39 and internal/wordlist; search runs to a fixpoint; plus the complete ordered first-use matrix (10x10 ordered language pairs, each followed by valid/invalid validations in all ten languages), plus long histories (every operation 70 times in a row; the whole alphabet twice). Oracle per executed call: outcome (value, error class and text, panic) equals the outcome of the same call in a fresh process; caller buffers and earlier results unchanged at the end of the history. distinct_nontrivial = distinct (operation, outcome) pairs observed"
 	r.Extra["operations"] = len(e.ops)
 	r.Extra["first_use_matrix_histories"] = len(matrix)
 	r.Extra["reached_fixpoint"] = r.Exhaustive
@@ -381,7 +403,7 @@ func runC13(tier string) int {
 
 func runC07(tier string) int {
 	t0 := time.Now()
-	w := buildWorker()
+	w := buildWorkerH()
 	r := newHistResult("C07", tier)
 	kinds := []string{"CV", "CB", "GE", "GB", "NB", "SD", "ST", "ND"}
 	langs := []int{2, 5, 9, 10}
@@ -402,7 +424,7 @@ func runC07(tier string) int {
 	r.Transitions = e.transitions
 	r.Evaluations = e.transitions
 	r.Distinct = int64(len(e.distinctOut))
-	r.Rule = "explicit-state BFS over call histories that never swap the randomness source (validations, encodings, rejected calls, seed, String, and NewMnemonic on the default source for all five counts); every transition executed in a fresh process; state = fingerprint of all package-level variables; invariant checked at every process start and after every history: the value held by the package's source variable (read through the verif hook, then restored) is identical (==) to crypto/rand.Reader. Second phase, in a build whose import of crypto/rand is redirected to a position-coded stand-in stream (overlay, nothing written to the repository): every call sequence (p)^* of 40 default-source NewMnemonic calls for every pattern p of length <=2 (thorough <=3) over the five counts, languages rotating: each result must be a valid sentence whose entropy occurs in the bytes the default source delivered and overlaps no window used by an earlier call (nothing mixed in, substituted or reused). For injected sources the byte-exact dependence is C06's oracle. distinct_nontrivial = distinct (operation, outcome) pairs observed"
+	r.Rule = "explicit-state BFS over call histories that never swap the randomness source (validations, encodings, rejected calls, seed, String, and NewMnemonic on the default source for all five counts); every transition executed in a fresh process; state = fingerprint of all package-level variables; the same is repeated with every environment variable the package reads set to a few values (flags, numbers, device paths); invariant checked at every process start and after every history: the value held by the package's source variable (read through the verif hook, then restored) is identical (==) to crypto/rand.Reader. Second phase, in a build whose import of crypto/rand is redirected to a position-coded stand-in stream (overlay, nothing written to the repository): every call sequence (p)^* of 300 default-source NewMnemonic calls (and of 80 calls with the stand-in going down for good inside the 3rd, 10th and 70th call: fail-closed, no other randomness afterwards) for every pattern p of length <=2 (thorough <=3) over the five counts, languages rotating: each result must be a valid sentence whose entropy occurs in the bytes the default source delivered and overlaps no window used by an earlier call (nothing mixed in, substituted or reused). For injected sources the byte-exact dependence is C06's oracle. distinct_nontrivial = distinct (operation, outcome) pairs observed"
 	r.Extra["operations"] = len(ops)
 	r.Extra["reached_fixpoint"] = r.Exhaustive
 	r.Extra["traces_validated_against_impl"] = e.transitions
@@ -411,6 +433,31 @@ func runC07(tier string) int {
 			r.Samples = append(r.Samples, map[string]interface{}{"state": fp, "shortest_history": strings.Join(e.states[fp], ","), "tables_built": e.lazyOf[fp], "source": "crypto/rand.Reader"})
 		}
 	}
+	// the process environment as an input: every variable the package reads, over a few values
+	envVars := envVarsRead()
+	envRuns := 0
+	for _, name := range envVars {
+		for _, val := range []string{"1", "0", "true", "42", "test", "", "/dev/zero", "/dev/urandom", "/dev/null"} {
+			for _, hist := range [][]string{{}, {"ND:2"}, {"CV:2", "ND:5:24"}} {
+				h, err := runHistory(w, hist, name+"="+val)
+				if err != nil {
+					die("%v", err)
+				}
+				envRuns++
+				r.Transitions += int64(len(hist)) + 1
+				if !h.SourceAtStart || !h.SourceDefault {
+					r.ViolationCount++
+					if len(r.Violations) < 40 {
+						r.Violations = append(r.Violations, Violation{Key: fmt.Sprintf("env:%s=%s:%s", name, val, strings.Join(hist, ",")),
+							What: fmt.Sprintf("with %s=%q in the environment the randomness source is not crypto/rand.Reader (at start: %v, after history [%s]: %v, dynamic type %s)", name, val, h.SourceAtStart, strings.Join(hist, ","), h.SourceDefault, h.SourceType),
+							Case: map[string]interface{}{"kind": "history", "ops": strings.Join(hist, ","), "env": name + "=" + val}})
+					}
+				}
+			}
+		}
+	}
+	r.Extra["environment_variables_read_by_the_package"] = envVars
+	r.Extra["environment_runs"] = envRuns
 	nSeq, nCalls, redirected := c07DefaultPath(tier, r)
 	r.Extra["default_path_sequences"] = nSeq
 	r.Extra["default_path_calls"] = nCalls
@@ -432,8 +479,10 @@ func replayHist(path string) int {
 		Property string `json:"property"`
 		What     string `json:"what"`
 		Case     struct {
-			Kind string `json:"kind"`
-			Ops  string `json:"ops"`
+			Kind   string `json:"kind"`
+			Ops    string `json:"ops"`
+			Env    string `json:"env"`
+			FailAt *int   `json:"fail_at"`
 		} `json:"case"`
 	}
 	if err := json.Unmarshal(data, &rep); err != nil {
@@ -441,7 +490,11 @@ func replayHist(path string) int {
 	}
 	if rep.Case.Kind == "vrand" {
 		wv, _ := buildWorkerV()
-		cmd := exec.Command(wv, "-prop", "vrand", rep.Case.Ops)
+		vargs := []string{"-prop", "vrand", rep.Case.Ops}
+		if rep.Case.FailAt != nil {
+			vargs = append(vargs, fmt.Sprint(*rep.Case.FailAt))
+		}
+		cmd := exec.Command(wv, vargs...)
 		cmd.Env = append(goEnv(), "VERIF_DIR="+verifDir)
 		out, err := cmd.Output()
 		if err != nil {
@@ -466,9 +519,16 @@ func replayHist(path string) int {
 		fmt.Println("replay: sequence passes on the current tree")
 		return 0
 	}
-	w := buildWorker()
+	w := buildWorkerH()
 	ops := strings.Split(rep.Case.Ops, ",")
-	h, err := runHistory(w, ops)
+	if rep.Case.Ops == "" {
+		ops = nil
+	}
+	var extraEnv []string
+	if rep.Case.Env != "" {
+		extraEnv = append(extraEnv, rep.Case.Env)
+	}
+	h, err := runHistory(w, ops, extraEnv...)
 	if err != nil {
 		die("%v", err)
 	}
@@ -512,9 +572,10 @@ type vrandCall struct {
 }
 
 type vrandOut struct {
-	SourceIsStandIn bool        `json:"source_is_stand_in"`
-	Calls           []vrandCall `json:"calls"`
-	Delivered       int         `json:"delivered"`
+	SourceIsStandInAtEnd bool        `json:"source_is_stand_in_at_end"`
+	SourceIsStandIn      bool        `json:"source_is_stand_in"`
+	Calls                []vrandCall `json:"calls"`
+	Delivered            int         `json:"delivered"`
 }
 
 // c07DefaultPath executes default-source call sequences in the build with the
@@ -540,16 +601,36 @@ func c07DefaultPath(tier string, r *Result) (nSeq, nCalls, redirected int) {
 		}
 	}
 	rec(nil)
-	const depth = 40
+	const depth = 300
 	type res struct {
-		ops string
-		out vrandOut
-		err error
+		ops    string
+		failAt int
+		out    vrandOut
+		err    error
 	}
-	results := make([]res, len(pats))
+	// every pattern once with a healthy stand-in, and again with the stand-in going down for good
+	// in the middle of the 3rd, the 10th and the 70th call (fail-closed on the default path, and no
+	// other randomness afterwards)
+	type job struct {
+		pat    []int
+		failAt int
+	}
+	var jobs []job
+	for _, p := range pats {
+		jobs = append(jobs, job{p, -1})
+		for _, callNo := range []int{3, 10, 70} {
+			bytes := 0
+			for j := 0; j < callNo-1; j++ {
+				n := p[j%len(p)]
+				bytes += n + n/3
+			}
+			jobs = append(jobs, job{p, bytes + 5})
+		}
+	}
+	results := make([]res, len(jobs))
 	var wg sync.WaitGroup
-	ch := make(chan int, len(pats))
-	for i := range pats {
+	ch := make(chan int, len(jobs))
+	for i := range jobs {
 		ch <- i
 	}
 	close(ch)
@@ -559,11 +640,16 @@ func c07DefaultPath(tier string, r *Result) (nSeq, nCalls, redirected int) {
 			defer wg.Done()
 			for i := range ch {
 				var ops []string
-				for j := 0; j < depth; j++ {
-					ops = append(ops, fmt.Sprintf("%d:%d", pats[i][j%len(pats[i])], (i+j)%10))
+				d := depth
+				if jobs[i].failAt >= 0 {
+					d = 80
+				}
+				for j := 0; j < d; j++ {
+					ops = append(ops, fmt.Sprintf("%d:%d", jobs[i].pat[j%len(jobs[i].pat)], (i+j)%10))
 				}
 				results[i].ops = strings.Join(ops, ",")
-				cmd := exec.Command(w, "-prop", "vrand", results[i].ops)
+				results[i].failAt = jobs[i].failAt
+				cmd := exec.Command(w, "-prop", "vrand", results[i].ops, fmt.Sprint(jobs[i].failAt))
 				cmd.Env = append(goEnv(), "VERIF_DIR="+verifDir, "GOMAXPROCS=2")
 				out, err := cmd.Output()
 				if err != nil {
@@ -580,6 +666,12 @@ func c07DefaultPath(tier string, r *Result) (nSeq, nCalls, redirected int) {
 			die("default-path run %s: %v", x.ops, x.err)
 		}
 		nSeq++
+		if redirected > 0 && x.out.SourceIsStandIn && !x.out.SourceIsStandInAtEnd {
+			r.ViolationCount++
+			if len(r.Violations) < 40 {
+				r.Violations = append(r.Violations, Violation{Key: "vrand-source-end:" + x.ops[:20], What: fmt.Sprintf("after %d default-source calls the package's source variable no longer holds the (stand-in for) crypto/rand.Reader", len(x.out.Calls)), Case: map[string]interface{}{"kind": "vrand", "ops": x.ops, "fail_at": x.failAt}})
+			}
+		}
 		if redirected > 0 && !x.out.SourceIsStandIn {
 			r.ViolationCount++
 			if len(r.Violations) < 40 {
@@ -594,7 +686,7 @@ func c07DefaultPath(tier string, r *Result) (nSeq, nCalls, redirected int) {
 				if len(r.Violations) < 40 {
 					r.Violations = append(r.Violations, Violation{Key: "vrand:" + prefix,
 						What: fmt.Sprintf("default-source call #%d (%s words, language %s) of sequence [%s]: %s", i+1, strings.Split(c.Op, ":")[0], strings.Split(c.Op, ":")[1], prefix, c.Problem),
-						Case: map[string]interface{}{"kind": "vrand", "ops": prefix}})
+						Case: map[string]interface{}{"kind": "vrand", "ops": prefix, "fail_at": x.failAt}})
 				}
 				break
 			}
